@@ -41,6 +41,7 @@ def removable_keys(ver, full):
 
 
 def check_vector(P, ver, s, copies=False):
+    P.remember({"ver": ver, "vector": s})
     L = lib()
     P.evaluations += 1
     case = {"ver": ver, "vector": s}
@@ -252,6 +253,29 @@ def shard(P, ver, idx, nshards, n, seed):
             P.sample({"ver": ver, "vector": s})
 
 
+def shard_mixed(P, idx, n, seed):
+    """All versions interleaved in ONE process (the per-version shards never meet): a table of names shared
+    between the classes must not carry one version's spelling over to another.  The version that goes first
+    differs from shard to shard."""
+    import random
+    rng = random.Random("C11-mixed-%s-%s" % (seed, idx))
+    order = [["3", "4", "2"], ["4", "3", "2"], ["2", "4", "3"], ["4", "2", "3"]][idx % 4]
+    work = {ver: extra_vectors(ver) + C10.vectors_for(rng, ver, n) for ver in order}
+    # the values whose names are shared between versions first
+    first = {"2": "AV:A/AC:L/Au:N/C:P/I:P/A:P", "3": "CVSS:3.1/AV:A/AC:L/PR:N/UI:N/S:U/C:H/I:H/A:H/MAV:A",
+             "4": "CVSS:4.0/AV:A/AC:L/AT:N/PR:N/UI:N/VC:H/VI:H/VA:H/SC:N/SI:N/SA:N/MAV:A/E:P"}
+    for ver in order:
+        P.stratum("mixed-versions-in-one-process")
+        check_vector(P, ver, first[ver])
+    for j in range(n):
+        for ver in order:
+            p, m = work[ver][(j * 7 + idx) % len(work[ver])]
+            s = V.spell(p, m, "shuffle" if j % 2 else None, rng)
+            P.dist(("mixed", s))
+            P.stratum("mixed-versions-in-one-process")
+            check_vector(P, ver, s)
+
+
 def run(R):
     _run(R)
     # objects the LIBRARY builds itself (text extractor, from_rh_vector, CLI, the repository's own tests)
@@ -270,6 +294,7 @@ def _run(R):
     n = R.pick(2500, 500000)
     for ver in T.VERSIONS:
         R.pmap("shard", [(ver, i, 16, n, R.seed) for i in range(16)])
+    R.pmap("shard_mixed", [(i, R.pick(150, 5000), R.seed) for i in range(8)])
     # every (metric, value) must have been decoded at least once
     for ver in T.VERSIONS:
         got = R.P.extra.get("decoded_v%s" % ver, set())
